@@ -25,6 +25,7 @@ PEERS = {
     "ext-longer": ("10.9.8.70", 41003),
     "lo4-longer": ("127.0.0.10", 41004),
     "ext-shorter": ("10.9.8", 41005),
+    "ext6": ("2001:db8::5", 41006, 0, 0),          # an IPv6 peer (4-tuple) that no allow list names
 }
 ALLOW = ["127.0.0.1,::1", "*", "10.9.8.7", ""]
 FWD_HEADERS = ["SCRIPT_NAME,PATH_INFO", "*", "", "X_CUSTOM,REMOTE_USER"]
@@ -61,7 +62,7 @@ def make_case(rng):
         "proxy_protocol": rng.random() < 0.5,
         "fwd_headers": rng.choice(FWD_HEADERS),
         "secure": rng.randrange(len(SECURE)),
-        "header_map": rng.choice(["drop", "drop", "refuse"]),
+        "header_map": rng.choice(["drop", "drop", "refuse", "refuse", "Drop", "DROP", "Refuse"]),
         "proxy_line": rng.random() < 0.45,
     }
     n = 1 if case["kind"] == "sync" else rng.choice([1, 2, 3])
@@ -187,7 +188,7 @@ def judge(case, envs, out):
                 v.append(("ambiguous-header-mapping", "request #%d: %s=%r was fed by differently spelled names %s" % (
                     i, k, val, sorted(names))))
         # 4b. refuse mode: an underscore name (not a trusted forwarder header) must not be served
-        if case["header_map"] == "refuse":
+        if case["header_map"].lower() == "refuse":
             bad = [n for n, _ in req["headers"] if "_" in n and not (trusted_fwd and (n.upper() in fwd or "*" in fwd))]
             if bad:
                 v.append(("underscore-served-in-refuse-mode", "request #%d with %s reached the application" % (i, bad)))
